@@ -1032,7 +1032,9 @@ def c16_cases(tier, ds):
         p2 = '%s/%s' % (names[1].replace('/', '_'), names[2].replace('/', '_'))
         v1, v2, v3 = (rng.choice(vals) for _ in range(3))
         funcs = [
-            gen._fn('f0', [gen._sb(1, arg=v3), gen._bf(p1.replace('/', '_'), 2, arg=v1, cmp_=rng.choice('MH')), gen._bf(p2, 3, cmp_=rng.choice('MH')), gen._sb(4)]),
+            # with root argument 1 the build no longer produces the second output (dropped at the commit - and only then)
+            gen._fn('f0', [gen._sb(1, arg=v3), gen._bf(p1.replace('/', '_'), 2, arg=v1, cmp_=rng.choice('MH')),
+                           ['if', ['arg', gen._e(0)], [gen._bf(p2, 3, cmp_=rng.choice('MH'))], []], gen._sb(4)]),
             gen._fn('f1', [], {'const': gen.enc_simple(v1)}),
             gen._fn('f2', [['w', None]], {'const': gen.enc_simple(v2)}),
             gen._fn('f3', [gen._sb(1, arg=[v3], catch=True), ['w', None]], 'acc'),
@@ -1044,6 +1046,8 @@ def c16_cases(tier, ds):
             # the cache write of one build whose root function succeeds fails (disk full / cannot create):
             # the previous cache content must be back - or no cache file left, if there was none
             b = rng.choice([i_ for i_, st_ in enumerate(steps) if st_[3] == 0])
+            if b > 0 and rng.random() < 0.5:
+                steps[b] = gen._build(arg=1)        # ... this one drops an output of the previous build
             steps[b] = steps[b] + [{'inject_op': rng.choice(['write-cache', 'open-for-write']), 'abort': 'end',
                                     'inject_exc': rng.choice(['EIO', 'ENOSPC', 'ValueError', 'ValueError'])}]
             if rng.random() < 0.5:
@@ -1052,6 +1056,59 @@ def c16_cases(tier, ds):
             steps.append(['clean', 'n'])
         out.append({'kind': 'hist', 'seed': 'c16:%d' % i, 'dirsize': ds, 'cache': 'cache.gz', 'tree': [], 'funcs': funcs, 'steps': steps})
     return out
+
+
+def surrogate_probe(tier, rep):
+    """C16 with strings the Lean model cannot hold (its strings are sequences of Unicode scalar values): lone surrogates -
+    as os.fsdecode produces them for file names that are not valid UTF-8, or as user data.  Real code only: build,
+    unchanged rebuild (everything served from the cache), clean."""
+    import shutil
+    import tempfile
+    fb = realrun.load_fb()
+    FB = fb.FileBuilder
+    problems = []
+    root = os.path.realpath(tempfile.mkdtemp(prefix='fbh_sur_', dir=realrun.SANDBOX_BASE))
+    try:
+        cache = os.path.join(root, 'cache.gz')
+        odd_name = os.path.join(os.fsencode(root), b'out', b'r\xe9sum\xe9-\xff.txt')
+        vals = ['x\ud83dy', ['\udcff', {'k\udc80': '\ud800'}], 'plain \u00e9 \U0001F600']
+        ran = []
+
+        def mk(b, fn, v):
+            ran.append('mk')
+            with open(fn, 'w') as fh:
+                fh.write('content')
+            return v
+
+        def sub(b, v):
+            ran.append('sub')
+            return [v, {'echo': v}]
+
+        def rootf(b):
+            out = [b.build_file(odd_name, 'mk', mk, vals[0])]
+            for i, v in enumerate(vals):
+                out.append(b.subbuild('sub%d' % i, sub, v))
+            return out
+        r1 = FB.build(cache, 'n', rootf)
+        first = list(ran)
+        del ran[:]
+        r2 = FB.build(cache, 'n', rootf)
+        rep.count('surrogate_values_checked', len(vals) + 1)
+        if ran:
+            problems.append({'what': 'an unchanged rebuild with lone surrogates in names and values re-executed %s' % ran})
+        if r1 != r2:
+            problems.append({'what': 'values with lone surrogates served from the cache differ from the values originally returned', 'first': repr(r1)[:200], 'second': repr(r2)[:200]})
+        if not os.path.isfile(odd_name):
+            problems.append({'what': 'the output whose name is not valid UTF-8 is missing after a committed build'})
+        FB.clean(cache, 'n')
+        left = [n for n in os.listdir(root)]
+        if left:
+            problems.append({'what': 'clean left %s behind' % left})
+    except Exception as e:
+        problems.append({'what': 'a build with lone surrogates in an output name / in values raised %s: %s' % (type(e).__name__, str(e)[:160])})
+    finally:
+        shutil.rmtree(root, ignore_errors=True)
+    return problems
 
 
 def check_C16(tier):
@@ -1084,6 +1141,8 @@ def check_C16(tier):
         if not str(c.get('seed', '')).startswith('corpus:') and i % 4 == 0:
             c['spell'] = core.seed() * 7919 + i
     explore('C16', tier, rep, cases)
+    for q in surrogate_probe(tier, rep)[:2]:
+        rep.violation('surrogates', {'property': 'C16', 'kind': 'failing-input', 'what': q}, note=json.dumps(q, default=str)[:250])
     return finish('C16', rep, gate)
 
 
